@@ -3,6 +3,7 @@ CONSTANTS
   NC = 3
   NF = 1
   WinC = 2
+  CursorFromAccepted = TRUE
   StrictForward = TRUE
   StopAtGenesis = TRUE
   MaxFaults = 2
